@@ -177,7 +177,17 @@ def one(ctx, T, d):
         else:
             og.reason = 'acos is applied to an unguarded cosine but no NaN / out-of-range result was reproduced: ' + txt
     else:
-        og.reason = 'unexpected shape of the result term'
+        # the result is not an arc cosine of one guarded value (for example a second formula on some branch).  Nothing can
+        # be concluded symbolically about libm functions; the candidate is replayed natively on (anti)parallel,
+        # nearly (anti)parallel, perpendicular and generic pairs against atan2(|a x b|, a.b) in long double, with the
+        # tolerance the property states (conditioning of the arc cosine).  Only a reproduced difference is a violation.
+        rep, txt = shape_replay(ctx, w, d, na, nb, T)
+        if rep:
+            og.verdict = 'violated'
+            og.reason = 'the result is not the arc cosine of one guarded cosine on every path, and ' + txt
+            og.replay = ctx.save_case(og, rep, {'kind': 'observed', 'impl': w.name})
+        else:
+            og.reason = 'unexpected shape of the result term (' + txt + ')'
     # the cosine itself
     oc = ctx.ob(d['id'] + ' [cosine]', 'cosine-identity', 'REAL', '%s: the value handed to acos equals a.b / (|a| |b|) (direction operands are unit vectors)' % d['id'])
     if cosines:
@@ -332,6 +342,52 @@ def range_replay(ctx, w, na, nb, T):
         return False, 'rescaled vectors give the same angle'
     rp.case = {'kind': 'observed', 'impl': w.name}
     return rp
+
+
+def shape_replay(ctx, w, d, na, nb, T):
+    t = H.NPT[T]
+    L = np.longdouble
+    tol = {'f32': 2e-3, 'f64': 1e-6, 'f80': 1e-6}[T]
+    rng = np.random.default_rng(11)
+
+    def unit(v):
+        m = np.sqrt(sum(L(x) * L(x) for x in v))
+        return [L(x) / m for x in v]
+    n = min(na, nb)
+    for trial in range(600):
+        a = [L(v) for v in rng.normal(size=n)]
+        kind = trial % 6
+        if kind == 0:
+            b = [x * L(2.5) for x in a]
+        elif kind == 1:
+            b = [-x * L(0.75) for x in a]
+        elif kind == 2:
+            b = [-x + L(1e-3) * L(v) for x, v in zip(a, rng.normal(size=n))]
+        elif kind == 3:
+            b = [x + L(1e-3) * L(v) for x, v in zip(a, rng.normal(size=n))]
+        elif kind == 4:
+            b = [-a[1], a[0]] + [L(0)] * (n - 2)
+        else:
+            b = [L(v) for v in rng.normal(size=n)]
+        if 'Direction' in d.get('a', ''):
+            a = unit(a)
+        if 'Direction' in d.get('b', ''):
+            b = unit(b)
+        a = [t(x) for x in a] + [t(0)] * (na - n)
+        b = [t(x) for x in b] + [t(0)] * (nb - n)
+        if all(x == 0 for x in a) or all(x == 0 for x in b):
+            continue
+        al, bl = [L(x) for x in a], [L(x) for x in b]
+        m = max(na, nb, 3)
+        al += [L(0)] * (m - len(al))
+        bl += [L(0)] * (m - len(bl))
+        cx = [al[1] * bl[2] - al[2] * bl[1], al[2] * bl[0] - al[0] * bl[2], al[0] * bl[1] - al[1] * bl[0]]
+        ref = np.arctan2(np.sqrt(sum(c * c for c in cx)), sum(x * y for x, y in zip(al, bl)))
+        o, _ = ctx.unit.call_native(w, a + b)
+        v = o[0]
+        if np.isnan(v) or abs(L(v) - ref) > tol:
+            return a + b, 'Angle = %r where atan2(|a x b|, a.b) = %.12g for a = %s, b = %s' % (v, float(ref), [float(x) for x in a], [float(x) for x in b])
+    return None, '600 pairs agree with atan2(|a x b|, a.b)'
 
 
 def nan_replay(ctx, w, na, nb, T):
